@@ -404,7 +404,7 @@ func (c *Ctx) osConst(name string) int {
 
 func runC13(c *Ctx) {
 	p, r := c.P, c.R
-	r.Explanation = "Decides on every path of the three stock sinks: writer.Sink and FileSink acknowledge (nil, nil) only after writing a reader over exactly the bytes Event.Format returned for the configured format (JSON when unset), once — or once more after rewinding the same reader when the first write failed — with the sink mutex held for writing, with the (last) write's error tested nil; a missing format or a failing write is an error; FileSink's /dev/null returns (nil, nil) without touching a file and stdout/stderr select os.Stdout/os.Stderr; ChannelSink.Process is one blocking select with exactly three arms — send of the very event parameter on the sink's channel -> (nil, nil), <-ctx.Done() -> (nil, ctx.Err()), <-time.After(timeout) -> (nil, non-nil) — no default and no other blocking instruction. Behaviour of the supplied io.Writer and real-time bounds are not decided. C13.ctor: NewChannelSink stores exactly its arguments after both guards."
+	r.Explanation = "Decides on every path of the three stock sinks: writer.Sink and FileSink acknowledge (nil, nil) only after writing a reader over exactly the bytes Event.Format returned for the configured format (JSON when unset), once — or once more after rewinding the same reader when the first write failed — with the sink mutex held for writing, with the (last) write's error tested nil; a missing format or a failing write is an error; FileSink's /dev/null returns (nil, nil) without touching a file and stdout/stderr select os.Stdout/os.Stderr; ChannelSink.Process is one blocking select with exactly three arms — send of the very event parameter on the sink's channel -> (nil, nil), <-ctx.Done() -> (nil, ctx.Err()), <-time.After(timeout) -> (nil, non-nil) — no default and no other blocking instruction. Behaviour of the supplied io.Writer and real-time bounds are not decided. C13.ctor: NewChannelSink stores exactly its arguments after both guards. C13.format Format:reads-table: Event.Format answers from the format table itself, under Event.l."
 	r.NotDecided = []string{"behaviour of user-supplied io.Writers (short writes, buffering)", "real-time bounds of the timeout"}
 	c.lockControls()
 	// --- C13.writer
@@ -413,6 +413,7 @@ func runC13(c *Ctx) {
 		c.eNilRule("C13.writer", fn, false)
 	}
 	// --- C13.file
+	c.ruleFormatFromTable("C13.format")
 	if fn := c.Fn("C13.file", PkgRoot, "FileSink", "Process"); fn != nil {
 		c.ruleSinkAck("C13.file", fn, "eventlogger.FileSink.l", fileSinkWriter, fileSinkSpecial)
 		c.eNilRule("C13.file", fn, false)
@@ -469,6 +470,12 @@ func runC13(c *Ctx) {
 			if st, ok := in.(*ssa.Store); ok {
 				at, vt := tb.Of(st.Addr), tb.Of(st.Val)
 				if b, ok := at.IsFieldAddr("BytesWritten"); ok && b.IsParam("0:fs") && vt.Op == "Bin" && vt.Name == "+" && vt.Args[0].Is("Field", "BytesWritten") && vt.Args[1].Op == "Extract" && vt.Args[1].Name == "0" && vt.Args[1].Args[0].Name == "(*bytes.Reader).WriteTo" {
+					okCount = true
+				}
+			}
+			// ... or through the sink's counting helper, handed the count of the write
+			if ci, ok := in.(*ssa.Call); ok && countingHelper(ci.Call.StaticCallee()) && len(ci.Call.Args) == 2 {
+				if a := tb.Of(ci.Call.Args[1]); tb.Of(ci.Call.Args[0]).IsParam("0:fs") && a.Op == "Extract" && a.Name == "0" && a.Args[0].Name == "(*bytes.Reader).WriteTo" {
 					okCount = true
 				}
 			}
@@ -588,7 +595,7 @@ func runC13(c *Ctx) {
 
 func runC14(c *Ctx) {
 	p, r := c.P, c.R
-	r.Explanation = "Decides, for both JSON formatters (sibling implementations that must agree): the value encoded is a struct whose JSON members are exactly created_at, event_type and payload, filled from e.CreatedAt, e.Type and e.Payload; a json.Encoder over the formatter's own buffer is used (newline-terminated output) and FormattedAs(\"json\", buf.Bytes()) happens only on the err == nil edge of Encode, an encoding error yields (nil, err); no field of the event is assigned; JSONFormatterFilter forwards its event parameter iff the predicate is nil or returned (true, nil), (nil, nil) iff false, (nil, err) on error, and Filter likewise without the nil case; Event.Formatted is accessed only inside FormattedAs (under Event.l for writing) and Format (under Event.l for reading) or through freshly allocated events. JSON round-trip faithfulness for exotic payloads is encoding/json semantics and is not decided. C14.pred call: a stock node calls a func-typed configuration field only where it was found non-nil. C14.errors looks into a repository helper the encode failure is handed to: the helper must return a non-nil error whenever it is given one. C14.table pairing: every section of Event.l is released on every path."
+	r.Explanation = "Decides, for both JSON formatters (sibling implementations that must agree): the value encoded is a struct whose JSON members are exactly created_at, event_type and payload, filled from e.CreatedAt, e.Type and e.Payload; a json.Encoder over the formatter's own buffer is used (newline-terminated output) and FormattedAs(\"json\", buf.Bytes()) happens only on the err == nil edge of Encode, an encoding error yields (nil, err); no field of the event is assigned; JSONFormatterFilter forwards its event parameter iff the predicate is nil or returned (true, nil), (nil, nil) iff false, (nil, err) on error, and Filter likewise without the nil case; Event.Formatted is accessed only inside FormattedAs (under Event.l for writing) and Format (under Event.l for reading) or through freshly allocated events. JSON round-trip faithfulness for exotic payloads is encoding/json semantics and is not decided. C14.pred call: a stock node calls a func-typed configuration field only where it was found non-nil. C14.errors looks into a repository helper the encode failure is handed to: the helper must return a non-nil error whenever it is given one. C14.table pairing: every section of Event.l is released on every path. C14.table Format:reads-table: see C13.format."
 	r.NotDecided = []string{"round-trip faithfulness of encoding/json for arbitrary payloads (A4)"}
 	c.lockControls()
 	tb := p.NewTerms(nil)
@@ -875,6 +882,7 @@ func runC14(c *Ctx) {
 	// last-writer-wins means REPLACING an entry: nothing writes through, appends into or copies
 	// onto bytes that Format has already handed out
 	c.ruleFormatTableWrites("C14.table")
+	c.ruleFormatFromTable("C14.table")
 	// ... and every section of Event.l is released on every path (a read lock leaked on an early return blocks the next FormattedAs for good)
 	c.pairingRule("C14.table", func(fn *ssa.Function) bool {
 		return PkgPathOf(fn) == PkgRoot && fn.Signature.Recv() != nil && typeShort(fn.Signature.Recv().Type()) == "eventlogger.Event"
@@ -1097,6 +1105,10 @@ func runC15(c *Ctx) {
 		}
 		isD := func(t *Term) bool { return t.Is("Field", "MaxDuration") && t.Args[0].IsParam("0:fs") }
 		isE := func(t *Term) bool {
+			// the file's age: time.Since(LastCreated), or time.Now().Sub(LastCreated)
+			if t.Op == "Call" && t.Name == "(time.Time).Sub" && len(t.Args) == 2 && t.Args[0].Is("Call", "time.Now") && t.Args[1].Is("Field", "LastCreated") {
+				return true
+			}
 			return t.Op == "Call" && t.Name == "time.Since" && t.Args[0].Is("Field", "LastCreated")
 		}
 		isZero := func(t *Term) bool { return t.Is("Const", "0") }
@@ -1476,7 +1488,10 @@ func runC15(c *Ctx) {
 	// --- C15.prune
 	if fn := c.Fn("C15.prune", PkgRoot, "FileSink", "pruneFiles"); fn != nil {
 		rm := callsTo(fn, func(n string, cc *ssa.CallCommon) bool { return n == "os.Remove" })
-		srt := callsTo(fn, func(n string, cc *ssa.CallCommon) bool { return n == "sort.Strings" })
+		srt := callsTo(fn, func(n string, cc *ssa.CallCommon) bool {
+			// ascending order of the names: sort.Strings or slices.Sort over the []string
+			return n == "sort.Strings" || (strings.HasPrefix(n, "slices.Sort[") && len(cc.Args) == 1 && typeShort(cc.Args[0].Type()) == "[]string")
+		})
 		// the directory listed is the one the ACTIVE file lives in: open() joins fs.Path with a name
 		// derived from fs.FileName, so a FileName with a directory part (sub/audit.log) puts the
 		// sink's files into fs.Path/sub; a listing of fs.Path alone never finds them.
@@ -1486,7 +1501,7 @@ func runC15(c *Ctx) {
 				"pruning lists "+shortStr(dt.String(), 80)+", not the directory the rotated files are created in (Join(Path, Dir(FileName)), or the Dir of Path joined with a name made from the pattern): with a FileName that carries a directory part — or an empty one, for which Dir(Join(Path, FileName)) is the PARENT of Path — the rotated files are never found and MaxFiles is never enforced")
 		}
 		if len(rm) != 1 || len(srt) != 1 {
-			r.Bad("C15.prune", "pruneFiles:calls", p.Pos(fn.Pos()), "pruneFiles does not contain exactly one os.Remove and one sort.Strings")
+			r.Bad("C15.prune", "pruneFiles:calls", p.Pos(fn.Pos()), "pruneFiles does not contain exactly one os.Remove and one ascending sort of the names (sort.Strings / slices.Sort)")
 		} else {
 			a := tb.Of(rm[0].Common().Args[0])
 			okIdx := a.Op == "Index" && (a.Args[0].String() == tb.Of(srt[0].Common().Args[0]).String() || (a.Args[0].V != nil && a.Args[0].V == tb.Of(srt[0].Common().Args[0]).V)) && dominatesInstr(srt[0], rm[0])
@@ -1577,10 +1592,36 @@ func runC15(c *Ctx) {
 							return x.Op == "Bin" && x.Name == "-" && x.Args[0].Op == "Call" && x.Args[0].Name == "builtin len" && x.Args[1].Is("Field", "MaxFiles")
 						}
 						// the count may be clamped to the number of candidates: stale = min(len - MaxFiles, len)
+						// min(len - MaxFiles, len): the count clamped with the builtin
+						unclamp := func(v ssa.Value) *Term {
+							call, ok := v.(*ssa.Call)
+							if !ok || len(call.Call.Args) != 2 {
+								return nil
+							}
+							if b, isB := call.Call.Value.(*ssa.Builtin); !isB || b.Name() != "min" {
+								return nil
+							}
+							for k := 0; k < 2; k++ {
+								st, ln := tb.Of(call.Call.Args[k]), call.Call.Args[1-k]
+								if isStale(st) && lenArg(ln) != nil && lenArg(ln) == st.Args[0].Args[0].V {
+									return st
+								}
+							}
+							return nil
+						}
+						if st := unclamp(bo.Y); st != nil {
+							bt = st
+							staleBounded = true
+						}
 						if ph, isPhi := bo.Y.(*ssa.Phi); isPhi && len(ph.Edges) == 2 {
 							for i, e := range ph.Edges {
 								et, ot := tb.Of(e), tb.Of(ph.Edges[1-i])
+								clamped := false
+								if st := unclamp(e); st != nil {
+									et, clamped = st, true
+								}
 								if isStale(et) && ot.Is("Call", "builtin len") && lenArg(ph.Edges[1-i]) != nil && lenArg(ph.Edges[1-i]) == et.Args[0].Args[0].V {
+									_ = clamped
 									// the len edge is taken exactly when stale > len
 									pred := ph.Block().Preds[1-i]
 									for d := pred; d != nil; d = d.Idom() {
@@ -1618,7 +1659,35 @@ func runC15(c *Ctx) {
 							}
 						}
 						if isStale(bt) {
-							if ph, isPhi := bo.X.(*ssa.Phi); isPhi && okIdx && a.Args[1].V == ssa.Value(ph) {
+							ph, isPhi := bo.X.(*ssa.Phi)
+							if inc, isInc := bo.X.(*ssa.BinOp); !isPhi && isInc && inc.Op == token.ADD {
+								// `for i := range n` is a rotated loop: the latch tests i+1 < n, and the
+								// first iteration is entered under 0 < n
+								if k, isC := constInt(inc.Y); isC && k == 1 {
+									if p2, ok := inc.X.(*ssa.Phi); ok {
+										guarded := false
+										for _, q := range p2.Block().Preds {
+											if loop[q] {
+												continue
+											}
+											gc, ts, _ := condOf(q)
+											gb, ok := gc.(*ssa.BinOp)
+											if ok && gb.Op == token.LSS && ts == p2.Block() && tb.Of(gb.Y).String() == tb.Of(bo.Y).String() {
+												if k0, isC0 := constInt(gb.X); isC0 && k0 == 0 {
+													guarded = true
+													continue
+												}
+											}
+											guarded = false
+											break
+										}
+										if guarded {
+											ph, isPhi = p2, true
+										}
+									}
+								}
+							}
+							if isPhi && okIdx && a.Args[1].V == ssa.Value(ph) {
 								// induction: starts at 0, steps by +1
 								init0, step1 := false, false
 								for _, e := range ph.Edges {
@@ -1726,6 +1795,12 @@ func runC15(c *Ctx) {
 			if st, ok := in.(*ssa.Store); ok {
 				at, vt := tb.Of(st.Addr), tb.Of(st.Val)
 				if b, ok := at.IsFieldAddr("BytesWritten"); ok && b.IsParam("0:fs") && vt.Op == "Bin" && vt.Name == "+" && vt.Args[0].Is("Field", "BytesWritten") && vt.Args[1].Op == "Extract" && vt.Args[1].Name == "0" && vt.Args[1].Args[0].Name == "(*bytes.Reader).WriteTo" {
+					okCount = true
+				}
+			}
+			// ... or through the sink's counting helper, handed the count of the write
+			if ci, ok := in.(*ssa.Call); ok && countingHelper(ci.Call.StaticCallee()) && len(ci.Call.Args) == 2 {
+				if a := tb.Of(ci.Call.Args[1]); tb.Of(ci.Call.Args[0]).IsParam("0:fs") && a.Op == "Extract" && a.Name == "0" && a.Args[0].Name == "(*bytes.Reader).WriteTo" {
 					okCount = true
 				}
 			}
@@ -1849,6 +1924,18 @@ func (c *Ctx) ruleRotationInputWriters(rule string) {
 				ok2 = true
 			case nm == "BytesWritten" && v.Op == "Bin" && v.Name == "+" && v.Args[0].Is("Field", "BytesWritten") && v.Args[1].Op == "Extract" && v.Args[1].Args[0].Name == "(*bytes.Reader).WriteTo":
 				ok2 = true
+			case nm == "BytesWritten" && countingHelper(f):
+				// the sink's counting helper: every call site hands it the count of a write
+				ok2 = true
+				for _, g := range p.FuncsIn(PkgRoot) {
+					gtb := p.NewTerms(nil)
+					for _, ci := range callsTo(g, func(n string, cc *ssa.CallCommon) bool { return cc.StaticCallee() == f }) {
+						a := gtb.Of(ci.Common().Args[1])
+						if _, isCall := ci.(*ssa.Call); !isCall || !(a.Op == "Extract" && a.Name == "0" && a.Args[0].Name == "(*bytes.Reader).WriteTo") {
+							ok2 = false
+						}
+					}
+				}
 			}
 			r.Check(ok2, rule, p.ShortFn(f)+":writes:"+nm, p.InstrPos(in), "rotation input written only by open() (reset) or by the successful write (+= n)",
 				"rotation input "+nm+" is assigned "+v.String()+" outside open()'s reset / the successful write's increment: the size/age 'since the file was opened' that drives rotation is no longer what the trigger assumes")
@@ -1909,4 +1996,32 @@ func lenArg(v ssa.Value) ssa.Value {
 		}
 	}
 	return nil
+}
+
+// countingHelper: a method of FileSink whose whole effect is BytesWritten += <its one parameter>.
+func countingHelper(f *ssa.Function) bool {
+	if f == nil || f.Blocks == nil || len(f.Blocks) != 1 || len(f.Params) != 2 || f.Signature.Recv() == nil || typeShort(f.Signature.Recv().Type()) != "eventlogger.FileSink" {
+		return false
+	}
+	stores, calls := 0, 0
+	ok := false
+	for _, in := range f.Blocks[0].Instrs {
+		switch x := in.(type) {
+		case *ssa.Store:
+			stores++
+			fa, isFA := x.Addr.(*ssa.FieldAddr)
+			bo, isB := x.Val.(*ssa.BinOp)
+			if isFA && isB && fa.X == ssa.Value(f.Params[0]) && bo.Op == token.ADD && bo.Y == ssa.Value(f.Params[1]) {
+				if ld, isLd := bo.X.(*ssa.UnOp); isLd && ld.Op == token.MUL {
+					if fa2, ok2 := ld.X.(*ssa.FieldAddr); ok2 && fa2.X == fa.X && fa2.Field == fa.Field &&
+						fa.X.Type().Underlying().(*types.Pointer).Elem().Underlying().(*types.Struct).Field(fa.Field).Name() == "BytesWritten" {
+						ok = true
+					}
+				}
+			}
+		case ssa.CallInstruction:
+			calls++
+		}
+	}
+	return ok && stores == 1 && calls == 0
 }
